@@ -329,9 +329,11 @@ def _forms_case(arg):
     centre = np.array(CENTRES[1])
 
     def build(**kw):
+        kw = dict(kw)
+        c = kw.pop("_center", centre.copy())
         with warnings.catch_warnings():
             warnings.simplefilter("ignore")
-            return AtomGrid(rg, center=centre.copy(), rotate=37, method=method, **kw)
+            return AtomGrid(rg, center=c, rotate=37, method=method, **kw)
 
     forms = [
         ("single-degree-broadcast", dict(degrees=[alpha[1]]), dict(degrees=[alpha[1]] * n)),
@@ -341,6 +343,8 @@ def _forms_case(arg):
         ("sizes-as-array", dict(degrees=None, sizes=np.array(sizes)), dict(degrees=None, sizes=list(sizes))),
         ("single-size-broadcast", dict(degrees=None, sizes=[sizes[0]]), dict(degrees=None, sizes=[sizes[0]] * n)),
         ("sizes-win-over-degrees", dict(degrees=[alpha[0]] * n, sizes=list(sizes)), dict(degrees=None, sizes=list(sizes))),
+        ("centre-as-list", dict(degrees=list(seq), _center=[1.0, -2.0, 0.5]), dict(degrees=list(seq), _center=np.array([1.0, -2.0, 0.5]))),
+        ("centre-as-int-array", dict(degrees=list(seq), _center=np.array([1, -2, 3])), dict(degrees=list(seq), _center=np.array([1.0, -2.0, 3.0]))),
     ]
     for name, a, b in forms:
         case = {"route": "forms", "rgrid": rname, "method": method, "form": name}
